@@ -76,6 +76,8 @@ type caseT struct {
 	Secret    int `json:"secret"`
 	IP        int `json:"ip"`
 	Name      int `json:"name"`
+	ID        int `json:"id,omitempty"`        // index into ids
+	AnyProto  int `json:"any_proto,omitempty"` // != 0: client protocol number, taken from version.Versions (Proto is ignored)
 }
 
 var (
@@ -101,6 +103,7 @@ var (
 	ips     = []string{"203.0.113.7", "2001:db8::8a2e:370:7334", "127.0.0.1", "::1"}
 	names   = []string{"Steve", "a", "ABCDEFGHIJKLMNOP", "Ünïcödé_Nämé_16x"}
 	id      = uuid.UUID{0x12, 0x34, 0x56, 0x78, 0x9a, 0xbc, 0x4d, 0xef, 0x80, 0x12, 0x34, 0x56, 0x78, 0x9a, 0xbc, 0xde}
+	ids     = []uuid.UUID{id, {0, 0, 0, 0, 0, 0, 0x30, 1, 0x80, 0, 0, 0, 0, 0, 0, 2}, {0xff, 0xff, 0xff, 0xff, 0xff, 0xff, 0x4f, 0xff, 0xbf, 0xff, 0xff, 0xff, 0xff, 0xff, 0xff, 0xff}}
 )
 
 func requestedValues() []int {
@@ -113,16 +116,21 @@ func requestedValues() []int {
 
 func check(r *vrt.R, c caseT) {
 	kc := keys[c.Key]
-	pl := &fakePlayer{prof: profile.GameProfile{ID: id, Name: names[c.Name], Properties: propSets[c.Props]}, proto: protos[c.Proto].Protocol}
+	id := ids[c.ID]
+	clientProto, clientName := protos[c.Proto].Protocol, protos[c.Proto].String()
+	if c.AnyProto != 0 {
+		clientProto, clientName = proto.Protocol(c.AnyProto), fmt.Sprintf("protocol %d", c.AnyProto)
+	}
+	pl := &fakePlayer{prof: profile.GameProfile{ID: id, Name: names[c.Name], Properties: propSets[c.Props]}, proto: clientProto}
 	if kc.key != nil {
 		pl.key = kc.key
 	}
 	secret := secrets[c.Secret]
-	want := ref.VelocityVersion(c.Requested, int(protos[c.Proto].Protocol), kc.rev)
+	want := ref.VelocityVersion(c.Requested, int(clientProto), kc.rev)
 	r.Eval(1)
 	r.Class(fmt.Sprintf("expected-version:%d", want))
 	desc := func() string {
-		return fmt.Sprintf("requested=%d client=%s key=%s props=%d secret#%d ip=%s name=%q", c.Requested, protos[c.Proto], kc.name, c.Props, c.Secret, ips[c.IP], names[c.Name])
+		return fmt.Sprintf("requested=%d client=%s key=%s props=%d secret#%d ip=%s name=%q uuid=%s", c.Requested, clientName, kc.name, c.Props, c.Secret, ips[c.IP], names[c.Name], id)
 	}
 	var data []byte
 	var err error
@@ -247,9 +255,32 @@ func TestVerif(t *testing.T) {
 						x.Name = d
 						check(r, x)
 					}
+					for e := 1; e < len(ids); e++ {
+						x := base
+						x.ID = e
+						check(r, x)
+					}
 				}
 			}
 		}
+		// ---- version negotiation for EVERY protocol the proxy knows (not only the era representatives) ----
+		nv := 0
+		for _, v := range version.Versions {
+			for _, req := range reqs {
+				if !r.Thorough() && (req < -2 || req > 6) && req != 127 && req != 128 && req != 255 && req != 256 && req != -128 && req != -129 {
+					continue
+				}
+				for ki := range keys {
+					n++
+					if !r.Mine(n) {
+						continue
+					}
+					check(r, caseT{Requested: req, Key: ki, AnyProto: int(v.Protocol)})
+					nv++
+				}
+			}
+		}
+		r.ClassN("all-known-protocols-sweep", nv)
 		r.Sample(map[string]any{"requested_values": len(reqs), "protocols": len(protos), "key_cases": len(keys), "property_sets": len(propSets), "secrets": len(secrets), "addresses": len(ips), "names": len(names)})
 	})
 }
